@@ -249,14 +249,14 @@ CLAIMED["C18"] = {
 
 CLAIMED["C17"] = {
     "text": "Proof, C layer (vc/cvc.py: VCs from clang's macro-expanded AST of the working tree, bit-vectors + arrays, "
-            "z3 re-checked by cvc5) for 19 functions: psutil_users (every string read stays inside its fixed-width utmp "
+            "z3 re-checked by cvc5) for 20 functions - every entry of both mod_methods tables (checked by a table obligation) plus psutil_convert_ipaddr, psutil_pid_exists, append_flag: psutil_users (every string read stays inside its fixed-width utmp "
             "field for arbitrary record content; tuple slots user/terminal/host|localhost/started/pid, cut at field "
             "width; only USER_PROCESS), psutil_disk_partitions (slots = getmntent fields; reference ownership: no double "
             "release or use after release on any error path), psutil_convert_ipaddr (every MAC sprintf inside "
             "buf[NI_MAXHOST], loop invariant ptr = buf+3n), net_if_mtu/is_running/duplex_speed (bounded ifr_name copy, no "
             "signed overflow combining the speed words, speed in [0, INT_MAX]), proc_cpu_affinity_set (every item an error "
             "or a store inside cpu_set_t), ioprio_get/set, getpriority/setpriority, check_pid_range, pid_exists, "
-            "set_debug, getpagesize, linux_sysinfo, append_flag: no signed overflow, shift UB, out-of-bounds access or "
+            "set_debug, getpagesize, linux_sysinfo, append_flag, net_if_flags (path merging): no signed overflow, shift UB, out-of-bounds access or "
             "ownership error for any argument; NULL iff an exception is set; psutil_net_if_addrs (getifaddrs list walk: "
             "tuple slots per node - name, family, address, netmask, broadcast only under IFF_BROADCAST, ptp only under "
             "IFF_POINTOPOINT - and reference ownership on every error path, psutil_convert_ipaddr applied through its own "
@@ -264,7 +264,7 @@ CLAIMED["C17"] = {
             "disk_partitions (keep iff all or device and disk-backed fs type) / net_if_stats (ENODEV skipped).",
     "note": "Whole-extension memory safety is a bounded stand-in: ASan+UBSan build of the working tree's C files, "
             "argument grid over every mod_methods entry (~9000 calls), generated utmp and mounts files with an independent "
-            "struct/escape decoding as oracle, injected ethtool answers. psutil_net_if_flags is covered by the sanitizer grid only. Python loops unrolled for <= 2 records. "
+            "struct/escape decoding as oracle, injected ethtool answers. Python loops unrolled for <= 2 records. "
             "Kernel agreement of the interface list is not within reach.",
     "ref": "DESIGN.md section 5 (C17)",
 }
